@@ -153,6 +153,58 @@ CLAIMED['C19'] = {
             'relative 1e-9; the cythonbiogeme engine for both sides of the likelihood comparison.',
 }
 
+CLAIMED['C04'] = {
+    'technique': 'Rocq proof over a hand-transcribed engine model (tie B, bit-exact observed) + definitions regenerated from source (tie A) + exact-rational oracle on the implementation',
+    'text': ('Proved in Rocq for ALL n>0, T>0: the engine\'s blocks of rows (size ceil(n/T), last block to n) concatenate to rows 0..n-1, so every row is in exactly '
+             'one block, no block is empty, at most T threads are used, including T>n. Over the reals: per-thread accumulation plus join equals sum_r w_r f_r for '
+             'every thread count, every row permutation and every split into parts in any order; weight one without a weight formula; every component of the '
+             'gradient, Hessian and BHHH totals is the same weighted sum. About definitions regenerated from biogeme.py on every run: number_of_threads (0 -> cpu '
+             'count), scaled = total/N for f, g, h, bhhh. Tie B: the model partition is checked against the binary by re-computing the total in IEEE arithmetic '
+             'under blocks n T (bit-for-bit); calculate_likelihood(_and_derivatives), scaled and not, must lie within the summation bound of the exact rational '
+             'sum of weight x simulate, for thread counts {1,2,3,n-1,n,n+3,0}, row permutations, 2-4-way splits, a thread-count change through the setter and '
+             'before/after a bootstrap run. PARTIAL on schedules: real thread interleavings and data races in the C++ are outside the model; the thorough stress '
+             'run (run-to-run identical doubles) is a test, not a proof.'),
+    'note': KERNEL + 'py2v, the C04 ast extractors and the engine-call scan; Model/LogLike.v as a reading of cythonbiogeme biogeme.cc / evaluateExpressions.cc (external, '
+            'not verified); equalities over reals hold on doubles up to the stated summation bound.',
+}
+CLAIMED['C05'] = {
+    'technique': 'Rocq proof over hand-written Gallina builders (tie B: structural correspondence inside Coq) + engine value oracles',
+    'text': ('Proved over the reals (evalX), for every number of alternatives, every availability pattern with at least one available alternative, every nest structure '
+             'accepted by the model of the Nests validators, nest parameters != 0, mu > 0, listed alphas > 0: the trees built by logit/loglogit, mev/logmev with '
+             'arbitrary user ln G_i, nested/lognested(_mev_mu), cnl/logcnl/cnlmu/logcnlmu evaluate to probabilities in [0,1] that are 0 for unavailable alternatives '
+             'and sum to 1; they are invariant under adding a constant to all utilities; each probability builder is exp of its log builder; ordered logit/probit '
+             'category probabilities telescope to 1 and lie in [0,1] (logistic cdf proved monotone with range [0,1]; normal cdf by hypothesis). The Gallina builders '
+             '(incl. a model of Python double arithmetic on numeric parameters and of Nests.__init__/check_partition/check_validity/from_tuple) are compared node for '
+             'node with the trees /repo builds in both nest syntaxes (stream build); engine values of all alternatives are checked against the property directly and '
+             'against proved interval enclosures (stream prob_values). PARTIAL: alpha = 0 entries and 0**x are outside the reference semantics (sampled only).'),
+    'note': KERNEL + 'evalX as reference semantics; the expression bridge; the hand-written builders up to the sampled correspondence; cythonbiogeme numerics only sampled; '
+            'Phi is a Section variable with monotonicity/range hypotheses.',
+}
+CLAIMED['C06'] = {
+    'technique': 'Rocq proof over hand-written Gallina builders (tie B) incl. Coquelicot is_derive + engine value oracles',
+    'text': ('Proved: nested logit with all nest parameters 1 = logit; cross-nested logit whose alternatives each have alpha = 1 in exactly one nest = nested logit on the '
+             'induced partition; builders with explicit scale mu = 1 = unscaled builders; legacy tuple syntax = nest objects for all 13 builders (model of from_tuple; '
+             'stream build demands identical Python trees for both syntaxes on every case); generating-function consistency: for the trees of '
+             'get_mev_generating_for_nested and get_mev_for_nested, d/dV_i G(e^V) = e^{V_i} e^{ln G_i} (Coquelicot is_derive) for every available alternative, '
+             'including alternatives outside every nest; check_union can never fail after Nests.__init__. Stream pairs compares engine values of both sides of each '
+             'reduction (1e-9) and central differences of G with exp(V_i + ln G_i) (1e-5); a regression of the repaired alone term is reported with a concrete witness.'),
+    'note': KERNEL + 'same trusted base as C05 plus Coquelicot; reductions stated under exactness of Python-side float constants (trivial for Beta/Numeric parameters, '
+            'proved for 1.0); check_partition does not reject a repetition inside one nest (excluded by a NoDup hypothesis).',
+}
+CLAIMED['C10'] = {
+    'technique': 'Rocq proof over a hand-written model of draw generation / indexing and of the Monte-Carlo, Derive and Gauss-Hermite operators (tie B) + value correspondence through the proved interval evaluator',
+    'text': ('Proved for every list of formulas, any number of draw variables, any native/user generators (arbitrary functions of an abstract RNG state), any N, R: '
+             'generate_draws = stack then moveaxis gives table[o][r][k] = series_k[o][r]; k = position of the variable in the sorted names; what the engine reads for '
+             'variable d is the array returned by the generator registered for d\'s declared type; the MonteCarlo node is the arithmetic mean over the R draws; a '
+             'generator returning another shape is refused; user generators cannot take or shadow a native type name; Derive is the partial derivative on the smooth '
+             'fragment (from C02\'s D_correct); the engine\'s Gauss-Hermite rule equals the real-line integral whenever its node table is exact for the integrand '
+             '(PARTIAL: quadrature accuracy is sampled, 1e-4). Tied on every run: exact vm_compute comparison of numbering, tables, refusals, reserved names; engine '
+             'values (get_value_c, two-step prepare, BIOGEME.simulate, 1-3 threads) inside proved enclosures of the model\'s mean with deterministic tagged generators '
+             'and with recorded native draws (all 21 types); seed reproducibility bit-for-bit; Integrate vs closed forms; Derive vs enclosure of D.'),
+    'note': KERNEL + 'engine modelled from its C++ and only sampled; numpy array/moveaxis/RNG semantics assumed (RNG as arbitrary oracle); known finding: Derive through '
+            'bioLinearUtility is wrong in the external engine.',
+}
+
 _NOT_YET = 'check not built yet in this session (framework under construction); no claim made'
 NOT_APPLICABLE = {p: _NOT_YET for p in
                   ['C01', 'C02', 'C03', 'C04', 'C05', 'C06', 'C07', 'C08', 'C09', 'C10', 'C11', 'C12', 'C13',
